@@ -214,7 +214,7 @@ def _expected(t, v):
     return {"C1": c[0], "D1": c[0], "C2": c[1], "D2": c[1], "C3": c[2], "D3": c[2], "C4": NA_ERROR, "D4": NA_ERROR}
 
 
-def ob_cse(t, members_first, k0: int, v0: int, k1: int, v1: int, k2: int, v2: int, k3: int, v3: int) -> Optional[bool]:
+def ob_cse(t, members_first, cycles, k0: int, v0: int, k1: int, v1: int, k2: int, v2: int, k3: int, v3: int) -> Optional[bool]:
     """an array formula entered over a target range: every member cell shows its own element of the fitted result, and the
     range evaluates to the same elements, whichever is evaluated first"""
     ks, vs = (k0, k1, k2, k3), (v0, v1, v2, v3)
@@ -223,7 +223,8 @@ def ob_cse(t, members_first, k0: int, v0: int, k1: int, v1: int, k2: int, v2: in
             return None         # A1 and B1: number / logical / blank; A2, A3: numbers
     vals = tuple(_cell(ks[i], vs[i]) for i in range(4))
     with wb.notrace():
-        m = ExcelCompiler(excel=wb.SubstWrapper(wb.make_workbook(t), {}))
+        m = ExcelCompiler(excel=wb.SubstWrapper(wb.make_workbook(t), {}),
+                          cycles={"iterations": 5, "tolerance": 0.001} if cycles else None)
     for c, v in zip(("A1", "A2", "A3", "B1"), vals):
         m.excel.subst[wb.addr(c)] = v
     exp = _expected(t, vals)
@@ -292,6 +293,10 @@ def obligations(tier):
                                   float_mode="real", group="fit"))
     for t in ("cse_same", "cse_trim", "cse_scalar", "cse_row", "cse_col"):
         for mf in (True, False):
-            obs.append(Obligation(PROP, f"cse[{t},{'members' if mf else 'range'}-first]", __name__, "ob_cse", (t, mf),
+            obs.append(Obligation(PROP, f"cse[{t},{'members' if mf else 'range'}-first]", __name__, "ob_cse", (t, mf, False),
                                   timeout=400 if tier == "quick" else 1500, float_mode="real", group="cse"))
+            # the same with iterative calculation enabled (its evaluator closure is a different one)
+            if tier != "quick" or (t, mf) in (("cse_trim", True), ("cse_scalar", False), ("cse_col", True)):
+                obs.append(Obligation(PROP, f"cse_iter[{t},{'members' if mf else 'range'}-first]", __name__, "ob_cse", (t, mf, True),
+                                      timeout=400 if tier == "quick" else 1500, float_mode="real", group="cse"))
     return obs
